@@ -319,8 +319,13 @@ func init() {
 		// sequences of accepted messages: the seeded-change demonstration literally, then random plans
 		runSequence(NewRng(rng.U64()), out, directedSeqPlan(), false)
 		runSequence(NewRng(rng.U64()), out, directedKeptRatePlan(), false)
+		runLpSequence(NewRng(rng.U64()), out, directedLpPlan(), "off.cur-gt-max.on-same-max")
 		for sc := -nDirected; sc < n; sc++ {
 			r := NewRng(rng.U64())
+			if sc >= 0 && sc%20 == 13 {
+				runLpSequence(r, out, randomLpPlan(r), "toggle")
+				continue
+			}
 			if sc >= 0 && sc%40 == 7 {
 				runSequence(r, out, randomSeqPlan(r), true)
 				continue
